@@ -128,8 +128,9 @@ Definition json_relation_cards (rtype : string) (rel : aval) (n : nat) : result 
   else if String.eqb rtype jt_CARDINALITY then
     match jget "card_min" rel with Err e => Err e | Ok a =>
     match jget "card_max" rel with Err e => Err e | Ok b =>
-    match jint a with Err e => Err e | Ok a' =>
-    match jint b with Err e => Err e | Ok b' => Ok (a', b') end end end end
+    (* fix: a cardinality is an integer (a float, a Boolean, a string, null are rejected) *)
+    match jint a with Err _ => Err ParsingException | Ok a' =>
+    match jint b with Err _ => Err ParsingException | Ok b' => Ok (a', b') end end end end
   else Err ParsingException.
 
 (* fuel = nesting depth of the document; structural recursion on the JSON value is awkward because
@@ -141,7 +142,7 @@ Fixpoint json_parse_tree (fuel : nat) (here : path) (parent : ptr) (node : aval)
   | S fuel' =>
       match jget "name" node with Err e => Err e | Ok n =>
       match jget "abstract" node with Err e => Err e | Ok ab =>
-      match jstr n with Err e => Err e | Ok name =>
+      match jstr n with Err _ => Err ParsingException | Ok name =>      (* fix: a name is a string *)
       match json_read_attributes node with Err e => Err e | Ok attrs =>
       let info := {| f_name := name; f_abstract := json_abstract ab; f_type := TBoolean;
                      f_cmin := 1; f_cmax := 1; f_attrs := attrs |} in
